@@ -4,7 +4,7 @@ import math
 import random
 import sys
 
-from common import main
+from common import main, budget
 import build
 import frames
 
@@ -123,7 +123,7 @@ def gen(rnd):
 
 def search(item, seed):
     rnd = random.Random(seed * 977 + 3)
-    for _ in range(250):
+    for _ in range(budget(250)):
         case = gen(rnd)
         why = check(case)
         if why:
